@@ -390,22 +390,38 @@ def sortItem (recT : Expr → Tree) (si : Bool × Expr) : Tree :=
 def orderNode (recT : Expr → Tree) (o : List (Bool × Expr)) : Tree :=
   N.nd "oC_Order" ([N.lf "ORDER" "order", N.lf "BY" "by"] ++ interleave (N.lf "T__6" ",") (o.map (sortItem N recT)))
 
+/-- the greedy item `*` of `RETURN *` / `WITH *, …` -/
+def isStarItem (it : Expr × Option String) : Bool :=
+  match it with
+  | (.var s, none) => s == "*"
+  | _ => false
+
+/-- children of oC_ProjectionItems: `*` first when the model's first item is the greedy one -/
+def projItemsKids (recT : Expr → Tree) (items : List (Expr × Option String)) : List Tree :=
+  match items with
+  | it :: rest =>
+    if isStarItem it then N.lf "T__9" "*" :: (rest.map (fun x => [N.lf "T__6" ",", projItem N recT x])).flatten
+    else interleave (N.lf "T__6" ",") (items.map (projItem N recT))
+  | [] => []
+
 def tProjBody (recT : Expr → Tree) (p : Projection) : Tree :=
   N.nd "oC_ProjectionBody"
     ((if p.distinct then [N.lf "DISTINCT" "distinct"] else []) ++
-     [N.nd "oC_ProjectionItems" (interleave (N.lf "T__6" ",") (p.items.map (projItem N recT)))] ++
+     [N.nd "oC_ProjectionItems" (projItemsKids N recT p.items)] ++
      optList p.order (orderNode N recT) ++
      optList p.skip (fun e => N.nd "oC_Skip" [N.lf "L_SKIP" "skip", exprNode N (recT e)]) ++
      optList p.limit (fun e => N.nd "oC_Limit" [N.lf "LIMIT" "limit", exprNode N (recT e)]))
 
-/-- `RETURN *` (the greedy item `(.var "*", none)`) is outside the proved sub-grammar -/
-def notStar (it : Expr × Option String) : Bool :=
-  match it with
-  | (.var s, none) => s != "*"
-  | _ => true
+def wItem (recW : Expr → Bool) (it : Expr × Option String) : Bool := recW it.1 && !(isStarItem it)
+
+/-- items: an optional leading greedy `*`, then ordinary items -/
+def wItems (recW : Expr → Bool) (items : List (Expr × Option String)) : Bool :=
+  match items with
+  | it :: rest => if isStarItem it then rest.all (wItem recW) else items.all (wItem recW)
+  | [] => true
 
 def wProjBody (recW : Expr → Bool) (p : Projection) : Bool :=
-  p.items.all (fun it => recW it.1 && notStar it) &&
+  wItems recW p.items &&
   (match p.order with | some o => o.all (fun si => recW si.2) | none => true) &&
   (match p.skip with | some e => recW e | none => true) && (match p.limit with | some e => recW e | none => true)
 
@@ -510,5 +526,32 @@ def wfExpr : Nat → Expr → Bool
   | 0 => fun _ => false
   | f + 1 => wOr (wfExpr f)
 
+/-- a query model is in the proved sub-grammar when its expressions are well-formed within nesting depth `f` -/
+def wfQuery (f : Nat) (q : Query) : Bool := wQuery (wfExpr f) q
+
+/-- the canonical derivation of a query model (expressions nested at most `f` deep) -/
+def treeOf (f : Nat) (q : Query) : Tree := tQuery N (treeOfExpr N f) q
+
 end TreeOf
+
+mutual
+/-- structural equality of trees (core `Tree` derives no `BEq`) -/
+def treeEq : Tree → Tree → Bool
+  | .node r ks, .node r' ks' => r == r' && treeEqL ks ks'
+  | .leaf s, .leaf s' => s == s'
+  | .err s, .err s' => s == s'
+  | _, _ => false
+def treeEqL : List Tree → List Tree → Bool
+  | [], [] => true
+  | a :: as, b :: bs => treeEq a b && treeEqL as bs
+  | _, _ => false
+end
+
+/-- decidable well-formedness of a TREE: the visitor model accepts it, the model it builds lies in the proved sub-grammar, and the
+tree is the canonical derivation of that model -/
+def canonicalAt (N : Names) (f : Nat) (t : Tree) : Bool :=
+  match build N t with
+  | .ok m => wfQuery f m && treeEq t (treeOf N f m)
+  | .error _ => false
+
 end Dawgs.C07
